@@ -125,6 +125,16 @@ def gen_dp(rng, n, tier):
             cands += [max(xs) - min(xs), max(ys) - min(ys), math.hypot(max(xs) - min(xs), max(ys) - min(ys))]
             c = rng.choice([v for v in cands if v > 0] or [sc])
             eps = c * rng.choice([0.9, 0.99, 1.01, 1.1, 1.2, 1.35])
+        if rng.random() < 0.06:
+            # projected coordinates (a large common offset, as eastings / northings), fixes every few decimetres wobbling by millimetres, a millimetre tolerance:
+            # distances are differences of nearby large numbers
+            X0, Y0 = rng.choice([(651000.0, 6861000.0), (448250.0, 5411950.0)])
+            step = rng.choice([0.05, 0.25, 0.5]); k = rng.randint(5, 15); ang = rng.uniform(0, math.pi)
+            pts = []
+            for i in range(k):
+                w = rng.choice([0.0, 0.004, -0.003, 0.006, -0.005, 0.002])
+                pts.append([X0 + step * i * math.cos(ang) - w * math.sin(ang), Y0 + step * i * math.sin(ang) + w * math.cos(ang)])
+            eps = rng.choice([0.001, 0.002, 0.003])
         out.append({'pts': pts, 'eps': eps, 'tmode': rng.choice(['inc', 'inc', 'equal', 'dec', 'shuffle'])})
     for r in range(max(3, n // 300)):
         # long tracks (more than a thousand fixes), of the shapes where the farthest fix from the chord's line is not the farthest from the chord:
